@@ -997,3 +997,50 @@ func addrKey(a ssa.Value) string {
 	}
 	return "addr@" + a.Name() + "@" + fnKey(a)
 }
+
+// ---------------------------------------------------------------------------------------------
+// wrapper summaries: a call "performs X" when it is a call named X, or a call to a repository
+// function all of whose success exits pass through something that performs X (depth-bounded).
+
+var alwaysMemo = map[string]bool{}
+
+func (w *World) performs(in ssa.Instruction, names []string, depth int) bool {
+	c, ok := in.(ssa.CallInstruction)
+	if !ok {
+		return false
+	}
+	nm := methodNameOf(c)
+	for _, n := range names {
+		if nm == n {
+			return true
+		}
+	}
+	if depth <= 0 {
+		return false
+	}
+	callee := c.Common().StaticCallee()
+	if callee == nil || !inRepo(callee) || len(callee.Blocks) == 0 {
+		return false
+	}
+	key := callee.String() + "|" + strings.Join(names, ",") + "|" + itoa(depth)
+	if v, ok := alwaysMemo[key]; ok {
+		return v
+	}
+	alwaysMemo[key] = false // recursion guard
+	has := false
+	for _, c2 := range calls(callee) {
+		if w.performs(c2, names, depth-1) {
+			has = true
+		}
+	}
+	res := false
+	if has {
+		p := findPath(callee, nil, func(i2 ssa.Instruction) bool { return w.performs(i2, names, depth-1) }, func(i2 ssa.Instruction) bool {
+			ret, ok := i2.(*ssa.Return)
+			return ok && !isErrorExit(ret)
+		}, nil)
+		res = p == nil
+	}
+	alwaysMemo[key] = res
+	return res
+}
